@@ -937,4 +937,66 @@ theorem wfIn_unpack (h : wfIn i = true) :
 
 end wf
 
+section final
+variable {i : Input}
+
+theorem wfIn_env (h : wfIn i = true) : EnvOK i.env i.lsub (rd i.xlsub i.jcol) := by
+  obtain ⟨⟨a1, a2, a3, a4⟩, ⟨b1, b2, b3, b4⟩, ⟨c1, c2, c3⟩, hperm, hmark, hrep, hlists, hrows⟩ := wfIn_unpack h
+  refine ⟨a1, (by show 0 ≤ i.m; omega), ?_, ?_, ?_⟩
+  · intro r r0 r1
+    obtain ⟨k, rfl⟩ := Int.eq_ofNat_of_zero_le r0
+    exact hperm k r1
+  · intro k k0 k1
+    obtain ⟨n, rfl⟩ := Int.eq_ofNat_of_zero_le k0
+    exact hrep n k1
+  · intro s s0 s1 hs
+    obtain ⟨n, rfl⟩ := Int.eq_ofNat_of_zero_le s0
+    obtain ⟨x1, x2, x3, x4⟩ := hlists n s1 hs
+    refine ⟨x1, x2, x3, fun x hx1 hx2 => x4 _ ?_⟩
+    exact (mem_slice_iff x1).mpr ⟨x, hx1, hx2, rfl⟩
+
+theorem wfIn_root (h : wfIn i = true) :
+    Root (e := i.env) (L := i.lsub) (nextl0 := rd i.xlsub i.jcol) (visited0 i.jcol i.repfnz) i.st0 := by
+  obtain ⟨⟨a1, a2, a3, a4⟩, ⟨b1, b2, b3, b4⟩, ⟨c1, c2, c3⟩, hperm, hmark, hrep, hlists, hrows⟩ := wfIn_unpack h
+  have hmem : ∀ t : Nat, t ∈ visited0 i.jcol i.repfnz ↔ (t : Int) < i.jcol ∧ rd i.repfnz t ≠ EMPTY := by
+    intro t; unfold visited0; simp only [mem_filter, mem_range, decide_eq_true_eq]
+    constructor
+    · rintro ⟨x, y⟩; exact ⟨by omega, y⟩
+    · rintro ⟨x, y⟩; exact ⟨by omega, y⟩
+  refine ⟨⟨fun _ _ _ => rfl, le_refl _, b1, b2, b3, a4, ?_, b4⟩, ⟨?_, ?_, ?_, c1⟩, ?_⟩
+  · intro r r0 r1 hm
+    obtain ⟨k, rfl⟩ := Int.eq_ofNat_of_zero_le r0
+    exact absurd hm (hmark k r1)
+  · exact List.Nodup.filter _ List.nodup_range
+  · intro t ht; exact ((hmem t).mp ht).1
+  · intro t ht; exact ((hmem t).mp ht).2
+  · intro t ht hd; exact (hmem t).mpr ⟨ht, hd⟩
+
+theorem wfIn_fuel (h : wfIn i = true) : (i.env.jcol.toNat + 1) * stepK (rd i.xlsub i.jcol) ≤ fuelBound i := by
+  obtain ⟨_, _, ⟨c1, c2, c3⟩, _⟩ := wfIn_unpack h
+  unfold fuelBound stepK
+  apply Nat.mul_le_mul_left
+  omega
+
+/-- **the iterative search of `[sdcz]column_dfs` = the recursive search** (array level, any well-formed
+state, any set of representatives already visited on entry) -/
+theorem columnDfs_eq_dfsList (h : wfIn i = true) :
+    ∃ o nw, columnDfs i (fuelBound i) = some o ∧
+      nw ++ visited0 i.jcol i.repfnz =
+        dfsList (adjR i.env i.lsub) i.jcol.toNat ((rootCols i.env (colRows i.lsubCol)).map (repN i.env)) (visited0 i.jcol i.repfnz) ∧
+      o.nseg = i.nseg + nw.length ∧
+      slice o.segrep i.nseg o.nseg = nw.reverse.map Int.ofNat ∧
+      (∀ x, x < i.nseg → rd o.segrep x = rd i.segrep x) := by
+  have hE := wfIn_env h
+  have hR := wfIn_root h
+  obtain ⟨st', post', hs, hR', hS, hp⟩ := search_spec hE (adj := adjR i.env i.lsub) (fun s h1 h2 => adjR_eq _ _ s h1 h2)
+    (wfIn_fuel h) (colRows i.lsubCol) i.st0 _ hR (wfIn_unpack h).2.2.2.2.2.2.2
+  obtain ⟨nw, n1, n2, n3⟩ := hS.new
+  simp only [columnDfs, hs]
+  refine ⟨_, nw, rfl, ?_, n2, n3, hS.segFrame⟩
+  rw [← n1, hp, dfsList, foldl_map]
+  rfl
+
+end final
+
 end Slu.ColDfs
